@@ -56,3 +56,27 @@ theorem probe_no_deadline (w : World) (h : w.clock = none) : probe w = (false, w
   simp [probe, h]
 
 end SimilarVerif.C07
+
+namespace SimilarVerif.C07
+open SimilarVerif Spec
+
+/-- **Myers, every expiry point, unconditional**: the call returns a valid stream finishing the hook
+exactly once (Myers' theory discharges the snake hypothesis; totality included) -/
+theorem myers_every_expiry_total (E : Env) (os oe ns ne : Nat) (f : Option Nat) (p c : Nat)
+    (ho : os ≤ oe) (hn : ns ≤ ne) (hb : InBounds E os oe ns ne) :
+    ∃ r w', rawTrace .myers E os oe ns ne { clock := f, probes := p, cmps := c } = .ok (r, w') ∧
+      ValidRaw E os oe ns ne r.trace ∧ r.trace.getLast? = some .finish ∧
+      (r.trace.filter (· == .finish)).length = 1 := by
+  obtain ⟨r, w', h, hv⟩ := C01.myers_total_valid E os oe ns ne { clock := f, probes := p, cmps := c } ho hn hb
+  exact ⟨r, w', h, hv, C08.finish_once_last E os oe ns ne r.trace hv⟩
+
+/-- Patience, every expiry point, whenever it returns: valid, finish once -/
+theorem patience_every_expiry_uncond (E : Env) (os oe ns ne : Nat) (f : Option Nat) (p c : Nat) (r' : Rec) (w' : World)
+    (ho : os ≤ oe) (hn : ns ≤ ne) (hb : InBounds E os oe ns ne)
+    (h : rawTrace .patience E os oe ns ne { clock := f, probes := p, cmps := c } = .ok (r', w')) :
+    ValidRaw E os oe ns ne r'.trace ∧ r'.trace.getLast? = some .finish ∧
+      (r'.trace.filter (· == .finish)).length = 1 := by
+  have hv := C01.patience_valid_if_returns E os oe ns ne _ r' w' ho hn hb h
+  exact ⟨hv, C08.finish_once_last E os oe ns ne r'.trace hv⟩
+
+end SimilarVerif.C07
